@@ -31,6 +31,7 @@ void deny_reached(const char *name) {
     violation(nullptr, "race-libc-static", t, cur_op(t), vfmt("library code calls %s(), which POSIX documents as MT-Unsafe, from more than one thread", name));
 }
 extern "C" void deny_reached_c(const char *name) { deny_reached(name); }
+long long g_sim_clock = 1700000000;
 static void nondet(const char *name) { ev(vfmt("nondeterminism-source %s stubbed", name)); }
 
 extern "C" {
@@ -51,8 +52,10 @@ struct group *sim_getgrgid(gid_t) { deny_reached("getgrgid"); return nullptr; }
 char *sim_setlocale(int, const char *) { deny_reached("setlocale"); return (char *)"C"; }
 char *sim_ttyname(int) { deny_reached("ttyname"); return nullptr; }
 char *sim_getenv(const char *) { nondet("getenv"); return nullptr; }
-time_t sim_time(time_t *t) { nondet("time"); if (t) *t = 1700000000; return 1700000000; }
-int sim_clock_gettime(clockid_t, struct timespec *ts) { nondet("clock_gettime"); ts->tv_sec = 1700000000; ts->tv_nsec = 0; return 0; }
-int sim_gettimeofday(struct timeval *tv, void *) { nondet("gettimeofday"); tv->tv_sec = 1700000000; tv->tv_usec = 0; return 0; }
+// The simulated clock: the only clock library code can read.  It stands still during a call and is moved by the plan
+// between calls (seconds forward, a jump of hours or months, a step backwards): see "clock" in the plan language.
+time_t sim_time(time_t *t) { nondet("time"); time_t v = (time_t)g_sim_clock; if (t) *t = v; return v; }
+int sim_clock_gettime(clockid_t, struct timespec *ts) { nondet("clock_gettime"); ts->tv_sec = (time_t)g_sim_clock; ts->tv_nsec = 0; return 0; }
+int sim_gettimeofday(struct timeval *tv, void *) { nondet("gettimeofday"); tv->tv_sec = (time_t)g_sim_clock; tv->tv_usec = 0; return 0; }
 pid_t sim_getpid(void) { nondet("getpid"); return 4242; }
 }
